@@ -475,6 +475,13 @@ class InterpAlgorithmFixed(object):
         ndarray
             Derivative of interpolated values with respect to grid.
         """
+        if isinstance(getattr(self, 'coeffs', None), set):
+            # A vectorized call switched the caches to their vectorized form; start over with the
+            # single-point caches.
+            self.coeffs = {}
+            self.vec_coeff = None
+            self.last_index = [0] * self.dim
+
         idx, _ = self.bracket(x)
         result, d_dx, d_values, d_grid = self.interpolate(x, idx)
 
